@@ -130,6 +130,39 @@ CHECKS = {
             'implementation stream written from the property text.',
             'Trusted: Lean kernel; reading of the statement; correspondence harness (bounded by generators).  The clock (time.perf_counter monotonicity) is an input; callbacks are scripted reactions; fuel bounds only callback nesting.',
             '§5 C14'),
+    'C11': ('correspondence',
+            'Lean 4 invariant proofs over a heap model of ResourceMap (typed stores, ChainMap layers) for all '
+            'insertion/clear histories: back-links, one kind per name, last assignment wins, path equivalence; tied to '
+            'tree.py by correspondence incl. exhaustive short histories in the thorough tier',
+            'Theorems in lean/DesperProofs/Props/C11.lean (C11_path_equiv, C11_get_default_iff_keyerror, '
+            'C11_last_assignment_wins, C11_one_kind, C11_backlinks, C11_clear) under the explicit hypothesis Fresh '
+            '(values inserted at most once; aliasing is generated for the correspondence but excluded from the theorems).',
+            'Trusted: Lean kernel; reading of the statement; correspondence harness (bounded by generators).  CPython dict / ChainMap semantics are modelled (heap model with typed stores), not verified.', '§5 C11'),
+    'C12': ('correspondence',
+            'Lean 4 theorems over all access/clear histories through every access path (handle call, map item, '
+            'chained item, static item and attribute chains): at most one load between clears, same token, cached iff '
+            'no load; tied to tree.py by correspondence with falsy/odd loaded values and identity observation',
+            'Theorems in lean/DesperProofs/Props/C12.lean (C12_at_most_once, C12_same_object, C12_cached_iff, '
+            'C12_clear_reloads).  Correspondence: loaders returning None, 0, empty containers, objects with raising '
+            '__eq__/__bool__, load counters and `is` identity through every access path.',
+            'Trusted: Lean kernel; reading of the statement; correspondence harness (bounded by generators).  CPython dict / ChainMap semantics are modelled (heap model with typed stores), not verified.', '§5 C12'),
+    'C16': ('correspondence',
+            'Lean 4 theorems over a populator model whose input is the glob listing (ordered entries, hypothesis '
+            'ListingOk checked by the harness on every generated tree): files reachable, directories are maps, '
+            'handles built from (factory, path, args), conflict nesting, errors; tied to model/__init__.py by '
+            'correspondence on real temporary directory trees',
+            'Theorems in lean/DesperProofs/Props/C16.lean; C16_nothing_else_partial is per placement (the whole-'
+            'population path-level form is not derived) and files_reachable/dirs_are_maps carry a no-later-key-clash '
+            'hypothesis.  Correspondence creates real trees (depth<=4, names with 0-2 dots, empty dirs, dirs with '
+            'extensions), rule lists with filters/extra args, both flags at construction or per call, repeated population.',
+            'Partial: the file system, glob traversal order and os.path are runtime, replaced by ListingOk + splitext '
+            'model validated against os.path on every run.  ' + 'Trusted: Lean kernel; reading of the statement; correspondence harness (bounded by generators).  CPython dict / ChainMap semantics are modelled (heap model with typed stores), not verified.', '§5 C16'),
+    'C17': ('correspondence',
+            'Lean 4 theorems: snapshot mirrors the map for every path (item, attribute, get) after any history, and '
+            'is immutable; tied to tree.py by correspondence with identifier and non-identifier names, layered handles',
+            'Theorems in lean/DesperProofs/Props/C17.lean (C17_mirror, C17_immutable).',
+            'Trusted: Lean kernel; reading of the statement; correspondence harness (bounded by generators).  CPython dict / ChainMap semantics are modelled (heap model with typed stores), not verified.' + '  Names colliding with StaticResourceMap members are excluded (the statement\'s own exclusion).',
+            '§5 C17'),
 }
 
 NOT_YET = 'check not built yet (work in progress; see DESIGN.md §5 for the plan)'
